@@ -17,6 +17,8 @@ package index
 // answering as before; a fault-free retry from the resulting state succeeds.
 //
 // vf:harness property=C14 cases=nseg:1..2;dp:1 cases.thorough=nseg:1..3;dp:1..2 goinline=1 chanslack=8 maxpaths=400000 replay=model-only
+// vf:replace (*github.com/RoaringBitmap/roaring.Bitmap).ToBytes vfRoaringToBytes
+// vf:replace (*github.com/RoaringBitmap/roaring.Bitmap).ReadFrom vfRoaringReadFrom
 // vf:bounds arbitrary valid root of nseg segments (each in memory or already file-backed, arbitrary deletions); every directory Persist and Load free to fail (symbolic choice per call); one retry with faults cleared
 // vf:assume model directory and model segment plugin; the introducer goroutine runs introducePersist to completion when the persister hands it the loaded segments (a legal schedule; others need goroutine scheduling and are outside); persisterLoop's own error handling (waiting Batch calls get the error, AsyncError fires) is outside tier 1
 func VF_C14_PersistDirectFaults(nseg int, dp int) {
